@@ -1108,7 +1108,7 @@ impl Message<MJ> for SA {
         let log = self.sh.log.clone();
         let v = reply_j(base);
         let jh = tokio::spawn(async move {
-            tokio::time::sleep(Duration::from_millis(2)).await;
+            tokio::time::sleep(Duration::from_millis(2 * (1 + uid % 4))).await;
             if flags & F_JPANIC != 0 {
                 log.push(K::JoinTask { uid, out: Out::Panic });
                 panic!("scripted join task panic");
